@@ -37,6 +37,7 @@ class Exchange:
         self.next_id = 1000
         self.calls = []  # log of API calls: dict(method, n_instructions, answered, fault, reports)
         self.pending_async = []  # bets accepted asynchronously (created by EX_accept)
+        self.dedupe = {}  # customerRef -> result of the placeOrders call already applied
         self.caches = {}  # market_id -> OrderBookCache
         self.snap_queue = []  # [(market_id, CurrentOrders resource)]
         self.last_snap = {}
@@ -138,6 +139,11 @@ class Exchange:
         per = (fault or {}).get("per") or []
         changed = []
         reports = []
+        if m == "placeOrders" and params.get("customerRef") in self.dedupe:
+            # documented de-dupe of a re-submission with the same customerRef: nothing is placed again
+            call["dedupe"] = True
+            call["reports"] = self.dedupe[params.get("customerRef")]["instructionReports"]
+            return self.dedupe[params.get("customerRef")]
         if m == "placeOrders":
             is_async = bool(params.get("async"))
             for i, x in enumerate(ins):
@@ -250,7 +256,10 @@ class Exchange:
         overall = "SUCCESS" if all(s == "SUCCESS" for s in statuses) else ("FAILURE" if any(s == "FAILURE" for s in statuses) else ("TIMEOUT" if any(s == "TIMEOUT" for s in statuses) else "SUCCESS"))
         if changed:
             self.publish(market_id, changed)
-        return {"customerRef": params.get("customerRef"), "status": overall, "marketId": market_id, "instructionReports": reports}
+        res = {"customerRef": params.get("customerRef"), "status": overall, "marketId": market_id, "instructionReports": reports}
+        if m == "placeOrders" and params.get("customerRef"):
+            self.dedupe[params.get("customerRef")] = res
+        return res
 
     # -- autonomous exchange events
     def executable_bets(self):
@@ -386,12 +395,12 @@ class FakeSession:
         w.api_attempts.append((req["method"].split("/")[-1], id(task.package) if task else None))
         transport = (fault or {}).get("transport")
         result = None
+        call = None
         if transport in ("before",):
             w.transport_faults_seen += 1
         else:
             result = w.exchange.handle(req["method"], req["params"], fault)
-            if transport == "after":
-                pass
+            call = w.exchange.calls[-1]  # several calls can be outstanding at once: keep our own record
         if task is not None:
             task.state = "at_post"
             task.pool.main.release()
@@ -400,8 +409,8 @@ class FakeSession:
                 raise _Killed()
         if transport:
             kind = (fault or {}).get("error", "APIError")
-            if transport == "after":
-                w.exchange.calls[-1]["answered"] = False
+            if transport == "after" and call is not None:
+                call["answered"] = False
             if kind == "StatusCodeError":
                 return FakeResponse(500, "oops")
             if kind == "InvalidResponse":
@@ -411,7 +420,7 @@ class FakeSession:
             import requests
 
             raise requests.ConnectionError("injected")
-        w.exchange.calls[-1]["answered"] = True
+        call["answered"] = True
         return FakeResponse(200, json.dumps({"jsonrpc": "2.0", "result": result, "id": 1}))
 
 
